@@ -929,6 +929,9 @@ func (w *slotWorld) nestedDispatchRule(r *Report, rule string) {
 						continue
 					}
 					parts := strings.Split(p, " != ")
+					if len(parts) != 2 {
+						parts = strings.Split(p, " > ") // the same test behind a "length >= Lo" guard
+					}
 					if len(parts) == 2 && lenSlots[parts[0]] && parts[1] == s.Lo {
 						continue // the tail [Lo:end] is non-empty
 					}
